@@ -40,6 +40,9 @@ from ._customization import (
     yields_frames,
 )
 from . import _extract
+
+if sys.version_info < (3, 11):
+    from exceptiongroup import ExceptionGroup
 from . import _verifhooks
 
 try:
@@ -421,12 +424,30 @@ def glue_contextlib() -> None:
                         context.inner_stack.frames[0], context
                     )
             else:
-                try:
-                    frame = _extract.extract_outermost(mgr.gen)
-                except RuntimeError:  # no frames
-                    pass
-                else:
-                    return unwrap_context_generator(frame, context)
+                # The manager is exiting, so its frames will be part of the main
+                # frame series; extract the first of them for the hook to look at.
+                # This is extract_outermost() without losing the errors recorded
+                # during that extraction or on stacks nested within its result.
+                errors: List[Exception] = []
+                result = None
+                with _extract.current_options.push(
+                    with_contexts=True, recurse_child_tasks=False
+                ):
+                    frame = next(_extract.extract_iter(mgr.gen, errors), None)
+                if frame is not None:
+                    for frame_context in frame.contexts:
+                        errors.extend(_extract.recorded_errors(frame_context))
+                    try:
+                        result = unwrap_context_generator(frame, context)
+                    except Exception as ex:
+                        errors.append(ex)
+                if len(errors) > 1:
+                    raise ExceptionGroup(
+                        "multiple errors encountered while extracting stack", errors
+                    )
+                if errors:
+                    raise errors[0]
+                return result
         return None
 
     @elaborate_context.register(ExitStackBase)
